@@ -17,6 +17,9 @@ CHECKS["C02"] = ("exploration", "E1", "bounded exhaustive enumeration of operand
 CHECKS["C03"] = ("model_checking", "E2", "explicit-state breadth-first search over ValueSet operation histories with a lock-step model set, plus exhaustive pair/triple enumeration against a documented-equality reference",
   "Pairs and same-type triples of a pool (numbers at several precisions incl. decimal-text-equal and hash-colliding ones, normalising strings, nulls, structures, capsules, refined unknowns): RawEquals = documented structural equality (hence an equivalence), Equals symmetric, null=null, Equals=RawEquals on known same-type values, numeric trichotomy, equal => same Hash. BFS over all histories (depth 4, thorough 5) of Add/Remove/Copy/swap/Union/Intersection/Subtract/SymmetricDifference on two real ValueSets over colliding 6-element alphabets with a model set in lock-step: no duplicates, membership/length/values = model, set value equals SetVal(model), copies do not interfere; every permutation of constructor inputs gives RawEquals sets with identical iteration order.",
   "trusted: documented number equality re-implemented in the checker; states keyed on full bucket dump (len, cap, slack) + model; dedup per level-1 subtree", "§3 C03")
+CHECKS["C04"] = ("exploration", "E1", "bounded exhaustive enumeration of mark placements over operand tuples; paired marked / stripped runs (non-interference oracle)",
+  "Every operation-method case of the C01 universe (operands known, null, unknown, DynamicVal) x every placement of marks (root subsets of two marks per operand, one nested member marked), conversions and stdlib function calls x mark placements, and set constructors on marked members: the marked run and the run on deep-stripped inputs must agree on success/failure and on the unmarked result; promised marks must be on the result; no mark may be invented.",
+  "trusted: deep strip via UnmarkDeep (itself covered by C19); bound: 3 distinct marks, <=1 nested marked member per operand", "§3 C04")
 NOT_YET = {}
 props = [json.loads(l) for l in open('/verif/properties.jsonl')]
 checks = []
